@@ -7,6 +7,7 @@ V=$(pwd)
 ok=0; bad=0
 for d in seeded/${1:-}*/; do
   name=$(basename $d); prop=$(python3 -c "import json;print(json.load(open('$d/meta.json'))['property'])" 2>/dev/null || echo ${name:0:3})
+  if python3 -c "import json,sys;sys.exit(0 if 'superseded' in json.load(open('$d/meta.json')) else 1)" 2>/dev/null; then echo "SKIPPED $name (superseded)"; continue; fi
   wt=/tmp/seedwt-$name
   git -C /repo worktree add -q $wt HEAD || continue
   if git -C $wt apply $V/$d/patch.diff; then
